@@ -13,7 +13,8 @@ from vlib import onto_closure as OC
 ID = "C16"
 LEVEL = "exploration"
 RULE = ("random sequences (1-8) of {assign new collection, assign the field to itself, +=, |=, append, extend, insert, "
-        "item assignment, slice assignment, add, update} on a list-valued and a set-valued managed field starting from "
+        "item assignment, slice assignment, add, update; the iterable arguments given as list / tuple / generator / iterator / "
+        "map / reversed} on a list-valued and a set-valued managed field starting from "
         "random contents (given at construction or assigned), under several PYTHONHASHSEEDs.  Non-trivial = the "
         "sequence contains at least two different operation kinds and the field ends non-empty; distinct = the "
         "sequence of operation kinds x field kind x start form")
@@ -25,6 +26,22 @@ ANCHORS = ["PropertyDescriptor.__set__", "PropertyDescriptor._ensure_monitored_t
 
 LIST_OPS = ["assign_new", "assign_self", "iadd", "append", "extend", "insert", "setitem", "setslice"]
 SET_OPS = ["assign_new", "assign_self", "ior", "add", "update"]
+# the argument of extend / += / slice assignment / update may be any iterable, also a one-shot one
+ARG_FORMS = ["list", "list", "tuple", "gen", "iter", "map", "reversed"]
+
+
+def as_argument(vals, form):
+    if form == "tuple":
+        return tuple(vals)
+    if form == "gen":
+        return (v for v in vals)
+    if form == "iter":
+        return iter(list(vals))
+    if form == "map":
+        return map(lambda v: v, list(vals))
+    if form == "reversed":
+        return reversed(list(vals)[::-1])
+    return list(vals)
 
 
 def plan(tier):
@@ -48,7 +65,7 @@ def gen(rng, tier, ctx):
     for _ in range(rng.randint(1, 8)):
         op = rng.choice(LIST_OPS if kind == "list" else SET_OPS)
         vals = [rng.randrange(n_other) for _ in range(rng.randint(0, 3))]
-        ops.append([op, vals, rng.randrange(8)])
+        ops.append([op, vals, rng.randrange(8), rng.choice(ARG_FORMS)])
     return {"kind": kind, "n_other": n_other, "start": start, "start_form": rng.choice(["ctor", "assign", "append"]), "ops": ops,
             "twins": rng.random() < 0.3}
 
@@ -60,6 +77,7 @@ def witnesses():
         "assigned-list-order-and-duplicates-lost": {"kind": "list", "n_other": 4, "start": [], "start_form": "ctor", "ops": [["assign_new", [3, 0, 3, 1], 0]]},
         "equal-elements-collapsed-on-slice-assignment": {"kind": "list", "n_other": 4, "start": [1], "start_form": "ctor", "twins": True,
                                                          "ops": [["setslice", [0, 2], 0]]},
+        "slice-assignment-of-one-shot-iterable": {"kind": "list", "n_other": 3, "start": [0], "start_form": "ctor", "ops": [["setslice", [1, 2], 1, "gen"]]},
         "set-ior-erases-field": {"kind": "set", "n_other": 3, "start": [0], "start_form": "ctor", "ops": [["ior", [1], 0]]},
     }
 
@@ -121,8 +139,11 @@ def run(spec, ctx):
     check("start(" + spec["start_form"] + ")")
     if problems and spec["start_form"] in ("ctor", "assign") and kind == "list":
         key = "assigned-list-order-and-duplicates-lost"
-    for op, idxs, pos in spec["ops"]:
+    for op_spec in spec["ops"]:
+        op, idxs, pos = op_spec[:3]
+        form = op_spec[3] if len(op_spec) > 3 else "list"
         vals = [others[i] for i in idxs]
+        C["argform:" + form] += 1
         cont = getattr(owner, field)
         kinds_seen.append(op)
         pre_ok = not problems
@@ -135,7 +156,7 @@ def run(spec, ctx):
                 vals = []
             elif op == "iadd":
                 tmp = getattr(owner, field)
-                tmp += vals
+                tmp += as_argument(vals, form)
                 setattr(owner, field, tmp)
                 model = model + vals
             elif op == "ior":
@@ -150,7 +171,7 @@ def run(spec, ctx):
                 model.append(vals[0])
                 vals = vals[:1]
             elif op == "extend":
-                cont.extend(vals)
+                cont.extend(as_argument(vals, form))
                 model.extend(vals)
             elif op == "insert":
                 if not vals:
@@ -166,7 +187,7 @@ def run(spec, ctx):
                 vals = vals[:1]
             elif op == "setslice":
                 a = pos % (len(model) + 1)
-                cont[a:a + 1] = vals
+                cont[a:a + 1] = as_argument(vals, form)
                 model[a:a + 1] = vals
             elif op == "add":
                 if not vals:
@@ -175,7 +196,7 @@ def run(spec, ctx):
                 model.add(vals[0])
                 vals = vals[:1]
             elif op == "update":
-                cont.update(vals)
+                cont.update(as_argument(vals, form))
                 model.update(vals)
         except Exception as e:
             problems.append(f"{op} raised {type(e).__name__}: {e}"[:200])
